@@ -70,13 +70,12 @@ func (sw *slidingWindow) cleaner() {
 				} else {
 					break
 				}
-				if len(sw.samples) > newstartidx {
-					newsamples := make([]sample, len(sw.samples)-newstartidx)
-					copy(sw.samples[newstartidx:], newsamples)
-					sw.samples = newsamples
-				} else {
-					sw.samples = make([]sample, 0)
-				}
+			}
+			// drop the expired head once, keep the live tail
+			if newstartidx > 0 {
+				newsamples := make([]sample, len(sw.samples)-newstartidx)
+				copy(newsamples, sw.samples[newstartidx:])
+				sw.samples = newsamples
 			}
 			sw.mutex.Unlock()
 
